@@ -289,10 +289,26 @@ SameVertexRecords(S, T) == ObsVerts(S) = ObsVerts(T)
 OthersKept(S, T, except) ==
   {ObsVert(r) : r \in {x \in VRecs(S) : x.id \notin except}} = ObsVerts(T)
 
-\* a vertex record is a faithful image of an input vertex a = [u, m, data]
-ImageOf(r, a) ==
-  /\ r.id = a.u /\ r.m = a.m /\ r.data = a.data
-  /\ (~r.pert \/ r.dok)
+\* toroidal canonicalisation of lattice coordinates: L = periods in lattice units (<<>> = Euclidean).
+\* TLA+'s % is the mathematical modulus, so the result is in 0..L-1 for negative m as well.
+WrapHome(m, L) == IF Len(L) = 0 THEN m ELSE [j \in DOMAIN m |-> m[j] % L[j]]
+
+\* a vertex record is a faithful image of an input vertex a = [u, m, data] (C01 / C16)
+ImageOfT(r, a, L) ==
+  /\ r.id = a.u /\ r.data = a.data
+  /\ (a.cls = "probe" \/ (r.m = WrapHome(a.m, L) /\ (~r.pert \/ r.dok)))
+ImageOf(r, a) == ImageOfT(r, a, <<>>)
+
+\* C16: every vertex in the half-open fundamental box, wrapping idempotent
+InBox(S) ==
+  Len(S.cfg.L) = 0 \/
+  /\ Chk("C16.vertex outside the half-open fundamental box",
+         \* a vertex the insertion had to perturb (documented displacement ~1e-8 * local scale) may
+         \* sit that far outside the box; its lattice home must be inside
+         \A r \in VRecs(S) : (r.box \/ (r.pert /\ r.dok))
+                              /\ (\A j \in DOMAIN r.m : r.m[j] >= 0 /\ r.m[j] <= S.cfg.L[j])
+                              /\ (r.pert \/ \A j \in DOMAIN r.m : r.m[j] < S.cfg.L[j]))
+  /\ Chk("C16.wrapping is not idempotent", \A r \in VRecs(S) : r.idem \/ (r.pert /\ r.dok))
 
 ---------------------------------------------------------------------------
 (***************************************************************************)
@@ -311,8 +327,10 @@ ConstructOK(a, r, post) ==
   /\ Level3(post, CompletionStrength(g))
   /\ Embedded(post)
   /\ ChkNSI("C01.no vertex strictly inside a circumsphere", post)
-  /\ Chk("C01.vertices are inputs",
-         \A v \in VRecs(post) : \E x \in inputs : ImageOf(v, x))
+  /\ Chk("C16.toroidal domain recorded", post.cfg.L = a.L)
+  /\ InBox(post)
+  /\ Chk(IF Len(a.L) = 0 THEN "C01.vertices are inputs" ELSE "C16.vertex not congruent to its input",
+         \A v \in VRecs(post) : \E x \in inputs : ImageOfT(v, x, a.L))
   /\ Chk("C01.inserted count", r.inserted < 0 \/ r.inserted = Len(post.verts))
   /\ Chk("C01.skipped count",
          r.skipped < 0 \/ r.inserted + r.skipped = Len(a.input))
@@ -330,24 +348,26 @@ InsertInserted(pre, a, r, post) ==
   LET new == VRecs(post) \ {x \in VRecs(post) : x.id \in VIds(pre)} IN
   /\ Chk("C02.exactly one new vertex",
          Cardinality(new) = 1 /\ Len(post.verts) = Len(pre.verts) + 1)
-  /\ Chk("C02.new vertex carries caller's uuid and data",
-         \A v \in new : ImageOf(v, a))
+  /\ Chk(IF Len(pre.cfg.L) = 0 THEN "C02.new vertex carries caller's uuid and data"
+         ELSE "C16.later insertion is not wrapped into the domain",
+         \A v \in new : ImageOfT(v, a, pre.cfg.L))
+  /\ InBox(post)
   /\ Chk("C02.old vertices kept", OthersKept(post, pre, {a.u}))
   /\ Chk("C02.key resolves", r.key_ok)
   /\ Chk("C02.policies unchanged", post.cfg = pre.cfg)
   /\ StackOrBootstrap(post, post.cfg.g)
   /\ (post.cfg.cp = "EveryN1" /\ ~Bootstrap(post) => ChkNSI("C02.check policy => Delaunay", post))
-  /\ Chk("C09.not a coordinate duplicate", a.cls = "far" \/ ~DupCertain(pre, a.m))
+  /\ Chk("C09.not a coordinate duplicate", a.cls = "far" \/ ~DupCertain(pre, WrapHome(a.m, pre.cfg.L)))
   /\ Chk("C09.uuid not reused", a.u \notin VIds(pre))
 
 InsertRefused(pre, a, r, post) ==
   /\ Chk("C03.refused insert leaves state unchanged", Obs(post) = Obs(pre))
   /\ Chk("C09.DuplicateCoordinates only for a present vertex",
-         r.err = "DuplicateCoordinates" => ~DupImpossible(pre, a.m) /\ a.cls # "far")
+         r.err = "DuplicateCoordinates" => ~DupImpossible(pre, WrapHome(a.m, pre.cfg.L)) /\ a.cls # "far")
   /\ Chk("C09.DuplicateUuid only for a present uuid",
          r.err = "DuplicateUuid" => a.u \in VIds(pre))
   /\ Chk("C09.coordinate duplicate must be refused as such",
-         DupCertain(pre, a.m) /\ a.cls # "far" /\ a.u \notin VIds(pre)
+         DupCertain(pre, WrapHome(a.m, pre.cfg.L)) /\ a.cls # "far" /\ a.u \notin VIds(pre)
            => r.err = "DuplicateCoordinates")
 
 Insert(pre, a, r, post) ==
